@@ -6,6 +6,18 @@ import (
 	"verifharness/reqv"
 )
 
+// predUndecided is set when a class predicate could not decide because an exact comparison hit its
+// state cap; the caller then counts the case as inconclusive instead of reporting a violation.
+var predUndecided bool
+
+func predCompare(a, b string, o reqv.Options) reqv.Result {
+	r := reqv.Compare(a, b, o)
+	if r.Verdict == reqv.Inconclusive {
+		predUndecided = true
+	}
+	return r
+}
+
 // dotPositions returns the byte offsets of dots in an output-dialect regex that are
 // metacharacters: not escaped and not inside a character class.
 func dotPositions(s string) []int {
@@ -47,8 +59,19 @@ func dotPositions(s string) []int {
 // difference that remains afterwards) is reported as a violation.
 func inD17Class(ref, got string) bool {
 	pos := dotPositions(got)
-	if len(pos) == 0 || len(pos) > 8 {
+	if len(pos) == 0 {
 		return false
+	}
+	if len(pos) > 8 {
+		// too many dots to try every subset: fall back to the defining effect of the finding — the
+		// generated regex accepts a subset of the plain reading, and both agree exactly on every
+		// subject string that contains no newline
+		sub := predCompare("(?:"+ref+")|(?:"+got+")", ref, reqv.Options{SkipVT: true, MaxState: 300000})
+		if sub.Verdict != reqv.Equal {
+			return false
+		}
+		nonl := predCompare(ref, got, reqv.Options{SkipVT: true, MaxState: 300000, Skip: []rune{'\n'}})
+		return nonl.Verdict == reqv.Equal
 	}
 	n := len(pos)
 	// try "all dots" first, then the other non-empty subsets
@@ -68,7 +91,7 @@ func inD17Class(ref, got string) bool {
 			last = p + 1
 		}
 		sb.WriteString(got[last:])
-		r := reqv.Compare(ref, sb.String(), reqv.Options{SkipVT: true, MaxState: 20000})
+		r := predCompare(ref, sb.String(), reqv.Options{SkipVT: true, MaxState: 300000})
 		if r.Verdict == reqv.Equal {
 			return true
 		}
@@ -91,11 +114,11 @@ func hasLabel(l []string, x string) bool {
 // difference belongs to the class iff (1) the generated regex accepts a subset of the plain
 // reading and (2) both are exactly equivalent when compared case-insensitively.
 func inD20Class(ref, got string) bool {
-	sub := reqv.Compare("(?:"+ref+")|(?:"+got+")", ref, reqv.Options{SkipVT: true, MaxState: 20000})
+	sub := predCompare("(?:"+ref+")|(?:"+got+")", ref, reqv.Options{SkipVT: true, MaxState: 300000})
 	if sub.Verdict != reqv.Equal {
 		return false
 	}
-	ci := reqv.Compare("(?i)(?:"+ref+")", "(?i)(?:"+got+")", reqv.Options{SkipVT: true, MaxState: 20000})
+	ci := predCompare("(?i)(?:"+ref+")", "(?i)(?:"+got+")", reqv.Options{SkipVT: true, MaxState: 300000})
 	return ci.Verdict == reqv.Equal
 }
 
@@ -106,6 +129,6 @@ func inD20Class(ref, got string) bool {
 // The difference belongs to the class iff it disappears when exactly the two fold orbits
 // {k, K, U+212A} and {s, S, U+017F} are left out of the compared alphabet.
 func inD21Class(ref, got string) bool {
-	r := reqv.Compare(ref, got, reqv.Options{SkipVT: true, MaxState: 20000, Skip: []rune{'k', 'K', 0x212a, 's', 'S', 0x17f}})
+	r := predCompare(ref, got, reqv.Options{SkipVT: true, MaxState: 300000, Skip: []rune{'k', 'K', 0x212a, 's', 'S', 0x17f}})
 	return r.Verdict == reqv.Equal
 }
